@@ -518,7 +518,7 @@ def classify_fc(doc):
     return '@font-face' in doc['html'] or any('@font-face' in c for c in doc.get('css', []))
 
 
-def stream_monitor(run, rng, ndocs, nhist, njobs):
+def build_monitor(rng, ndocs, nhist, njobs):
     docs = []
     for i in range(ndocs):
         d = gen_doc(rng)
@@ -542,6 +542,11 @@ def stream_monitor(run, rng, ndocs, nhist, njobs):
     for j in range(njobs):
         jobs.append({'hashseed': j % 4, 'kind': 'histories', 'histories': hists[j::njobs]})
     cases = [{'hashseed': j['hashseed'], 'timeout': 600, 'job': _subjob(docs, j['histories'])} for j in jobs]
+    return docs, jobs, cases
+
+
+def stream_monitor(run, rng, ndocs, nhist, njobs):
+    docs, jobs, cases = build_monitor(rng, ndocs, nhist, njobs)
     outs = common.run_impl('impl_c19', 'spawn', cases, limit=700, chunksize=1)
     by_key, by_layout = {}, {}
     nsteps = 0
